@@ -782,3 +782,73 @@ Proof.
     + exact (forallb_imp _ _ n word_inK Wn).
     + apply top_ok_plain. exact (forallb_imp _ _ n word_plain Wn).
 Qed.
+
+(* ------------------------------------------------------------------ the usual spelling of a field number: str(i + 1) *)
+Lemma dec_fuel_nonempty : forall f n acc, acc <> [] -> dec_fuel f n acc <> [].
+Proof.
+  induction f as [|f IH]; intros n acc H; [exact H|]. cbn [dec_fuel]. destruct (N.ltb n 10); [discriminate|]. apply IH. discriminate.
+Qed.
+
+Theorem numeral_dec : forall i, numeral_ok (Parser.dec_of_nat (S i)) = true /\ N.to_nat (N_of_digits (Parser.dec_of_nat (S i)) - 1) = i.
+Proof.
+  intro i. unfold numeral_ok. unfold Parser.dec_of_nat at 3 4. rewrite dec_of_N_val. split; [|lia].
+  apply andb_true_iff. split; [apply andb_true_iff; split|apply N.leb_le; lia].
+  - unfold Parser.dec_of_nat, dec_of_N. cbn [dec_fuel]. destruct (N.ltb (N.of_nat (S i)) 10); [reflexivity|].
+    match goal with |- nonempty (dec_fuel ?f ?n ?acc) = true => pose proof (dec_fuel_nonempty f n acc ltac:(discriminate)) as Q; destruct (dec_fuel f n acc); [contradiction|reflexivity] end.
+  - pose proof (dec_digits (S i)) as D. induction D as [|c l Hc _ IH]; [reflexivity|]. cbn [forallb]. rewrite IH, andb_true_r. cls.
+Qed.
+
+(* ------------------------------------------------------------------ unquote_string inverts the usual quoting of a name *)
+Definition esc (q : ch) (name : str) : str := flat_map (fun c => if N.eqb c BSL || N.eqb c q then [BSL; c] else [c]) name.
+Definition dbl (name : str) : str := flat_map (fun c => if N.eqb c BSL then [BSL; BSL] else [c]) name.
+Definition quote (q : ch) (name : str) : str := q :: esc q name ++ [q].
+
+Lemma repl2_hit : forall x y z t, repl2 x y z (x :: y :: t) = z :: repl2 x y z t.
+Proof. intros. cbn [repl2]. rewrite !N.eqb_refl. reflexivity. Qed.
+Lemma repl2_miss1 : forall x y z c t, N.eqb c x = false -> repl2 x y z (c :: t) = c :: repl2 x y z t.
+Proof. intros x y z c [|d t] H; [reflexivity|]. cbn [repl2]. rewrite H. reflexivity. Qed.
+Lemma repl2_miss2 : forall x y z c t, match t with d :: _ => N.eqb d y = false | [] => True end -> repl2 x y z (c :: t) = c :: repl2 x y z t.
+Proof. intros x y z c [|d t] H; [reflexivity|]. cbn [repl2]. rewrite H, andb_false_r. reflexivity. Qed.
+
+Lemma esc_head : forall q n, N.eqb q BSL = false -> match esc q n with d :: _ => N.eqb d q = false | [] => True end.
+Proof.
+  intros q [|c n] Hq; [exact I|]. unfold esc. cbn [flat_map]. destruct (N.eqb c BSL || N.eqb c q) eqn:E; cbn [app].
+  - rewrite N.eqb_sym. exact Hq.
+  - apply orb_false_iff in E. exact (proj2 E).
+Qed.
+
+Lemma pass1 : forall q n, N.eqb q BSL = false -> repl2 BSL q q (esc q n) = dbl n.
+Proof.
+  intros q n Hq. induction n as [|c n IH]; [reflexivity|]. unfold esc, dbl in *. cbn [flat_map].
+  destruct (N.eqb_spec c BSL) as [->|Hc].
+  - cbn [orb app]. rewrite repl2_miss2 by (rewrite N.eqb_sym; exact Hq). rewrite repl2_miss2 by (exact (esc_head q n Hq)). rewrite IH. reflexivity.
+  - cbn [orb]. destruct (N.eqb_spec c q) as [->|Hc2]; cbn [app].
+    + rewrite repl2_hit, IH. reflexivity.
+    + rewrite repl2_miss1 by (apply N.eqb_neq; exact Hc). rewrite IH. reflexivity.
+Qed.
+
+Lemma pass2 : forall n, repl2 BSL BSL BSL (dbl n) = n.
+Proof.
+  induction n as [|c n IH]; [reflexivity|]. unfold dbl in *. cbn [flat_map]. destruct (N.eqb_spec c BSL) as [->|Hc]; cbn [app].
+  - rewrite repl2_hit, IH. reflexivity.
+  - rewrite repl2_miss1 by (apply N.eqb_neq; exact Hc). rewrite IH. reflexivity.
+Qed.
+
+Lemma last_opt_app : forall (s : str) c, last_opt (s ++ [c]) = Some c.
+Proof.
+  induction s as [|d s IH]; intro c; [reflexivity|]. cbn [app]. specialize (IH c). destruct (s ++ [c]) eqn:E; [destruct s; discriminate|].
+  cbn [last_opt]. exact IH.
+Qed.
+
+(* 'name' / "name" with backslashes and the quote character escaped (the spelling both languages read back as name) *)
+Theorem unquote_quote : forall q name, q = APOS \/ q = QT -> unquote_string (quote q name) = Some name.
+Proof.
+  intros q name Hq. assert (Hb : N.eqb q BSL = false) by (destruct Hq as [->| ->]; reflexivity).
+  unfold unquote_string, quote. replace (Nat.ltb (length (q :: esc q name ++ [q])) 2) with false.
+  2:{ symmetry. apply Nat.ltb_ge. cbn [length]. rewrite app_length. cbn [length]. lia. }
+  replace (last_opt (q :: esc q name ++ [q])) with (Some q) by (symmetry; apply (last_opt_app (q :: esc q name) q)).
+  assert (I : inner (q :: esc q name ++ [q]) = esc q name) by (unfold inner; cbn [tl]; apply removelast_last).
+  rewrite I. destruct Hq as [->| ->].
+  - change (N.eqb APOS APOS) with true. cbn [andb]. rewrite (pass1 APOS name Hb), pass2. reflexivity.
+  - change (N.eqb QT APOS) with false. change (N.eqb QT QT) with true. cbn [andb]. rewrite (pass1 QT name Hb), pass2. reflexivity.
+Qed.
